@@ -1,4 +1,9 @@
+import Vet.Props.C13Twice
 import Vet.Props.C13
 #print axioms Vet.C13_counterexample_prune
 #print axioms Vet.C13_clean_check_keeps_publishers
 #print axioms Vet.C13_clean_check_keeps_local_audits
+#print axioms Vet.C13_check_twice_partial_v2
+#print axioms Vet.C13_second_check_succeeds_partial
+#print axioms Vet.C13_check_twice_partial_refuted
+#print axioms Vet.C13_check_twice_partial_refuted_dup_rows
